@@ -37,6 +37,8 @@ def _world(home, dss, events):
     payloads = {d["url"]: (d["payload"], False) for d in DS.values()}
     w = LE.World([make_call(home, ds) for ds in dss], home, payloads=payloads)
     for ev in events:
+        if c19._TOLERANT[0] and ev[1] not in w.enabled():
+            continue
         w.step(ev[1], crash=(ev[0] == "crash"))
     return w
 
@@ -102,8 +104,17 @@ def _expand(item):
 
 @kind("schedule-two-datasets")
 def check_schedule(case):
-    key, en, fails = _expand((case["datasets"], [tuple(e) for e in case["events"]], 1))
-    return fails
+    events = [tuple(e) for e in case["events"]]
+    c19._TOLERANT[0] = True       # see c19.check_schedule
+    try:
+        for _ in range(400):
+            key, en, fails = _expand((case["datasets"], events, 1))
+            if fails or not en:
+                return fails
+            events = events + [min((e for e in en if e[0] == "run"), key=lambda e: e[1])]
+        return []
+    finally:
+        c19._TOLERANT[0] = False
 
 
 def bfs(dss, max_crash, name):
